@@ -4,6 +4,7 @@
 pub mod l2;
 pub mod net;
 pub mod tcp;
+pub mod validate;
 
 pub use l2::*;
 pub use net::*;
